@@ -75,6 +75,8 @@ BagDet(t, env) ==
             /\ t.op.o = "slice" =>
                   \/ ListDet(t.t, env)
                   \/ TrivialWindow(t.op.a, t.op.b, Len(Den(t.t, env)))
+            \* a user-defined order-dependent row filter picks rows by position as well
+            /\ IsCust(t.op, {"everyother"}) => ListDet(t.t, env)
       [] t.k = "bin" -> BagDet(t.l, env) /\ BagDet(t.r, env)
       [] t.k \in {"xfer", "mat"} -> BagDet(t.t, env)
       [] t.k = "sel" ->
